@@ -19,6 +19,7 @@ pub fn check_attributes(derive_input: &DeriveInput) -> Result<(), Error> {
     }
 
     if let Some(attr) = borsh {
+        let mut seen: Vec<String> = Vec::new();
         attr.parse_nested_meta(|meta| {
             if meta.path != USE_DISCRIMINANT && meta.path != INIT && meta.path != CRATE {
                 return Err(syn::Error::new(
@@ -26,6 +27,15 @@ pub fn check_attributes(derive_input: &DeriveInput) -> Result<(), Error> {
                     "`crate`, `use_discriminant` or `init` are the only supported attributes for `borsh`",
                 ));
             }
+            // the later functions keep the last occurrence of a key: a repeated key must not pick a value silently
+            let key = meta.path.to_token_stream().to_string();
+            if seen.contains(&key) {
+                return Err(syn::Error::new(
+                    meta.path.span(),
+                    format!("`{}` is given more than once in `borsh(...)`", key),
+                ));
+            }
+            seen.push(key);
             if meta.path == USE_DISCRIMINANT {
                 let _expr: Expr = meta.value()?.parse()?;
                 if let syn::Data::Struct(ref _data) = derive_input.data {
